@@ -29,7 +29,8 @@ static const char* kTypeNames[] = {"i32", "iptr", "u8", "i16", "f64", "f32", "u3
 static const int kNumTypes = 10;
 
 struct Case { int conv; std::vector<int> types; std::vector<int> dst; int extra_stack_args;   // dst: 0 own, 1..n incoming of arg (k-1), n+1 foreign A, n+2 foreign B, n+3 stack
-  std::string str() const { std::string s = "conv=" + std::to_string(conv) + " pad=" + std::to_string(extra_stack_args) + " types="; for (int t : types) s += std::to_string(t) + ","; s += " dst="; for (int d : dst) s += std::to_string(d) + ","; s += " #"; for (size_t i = 0; i < types.size(); i++) s += std::string(" ") + kTypeNames[types[i]] + "->" + std::to_string(dst[i]); return s; } };
+  int fv = 0;   // frame variant: 0 plain, 1 local stack aligned to 32 (dynamic alignment, stack arguments reached through the SA register), 2 the same with a preserved frame pointer
+  std::string str() const { std::string s = "conv=" + std::to_string(conv) + " pad=" + std::to_string(extra_stack_args) + " fv=" + std::to_string(fv) + " types="; for (int t : types) s += std::to_string(t) + ","; s += " dst="; for (int d : dst) s += std::to_string(d) + ","; s += " #"; for (size_t i = 0; i < types.size(); i++) s += std::string(" ") + kTypeNames[types[i]] + "->" + std::to_string(dst[i]); return s; } };
 
 static std::string g_why, g_clause;
 #define FAIL(cl, ...) do { char _b[600]; snprintf(_b, sizeof _b, __VA_ARGS__); g_why = _b; g_clause = cl; return 0; } while (0)
@@ -99,6 +100,7 @@ static int run_case(const Case& cs) {
     } else args.assign_stack(first + i, ds.off, dst_type);
   }
   frame.set_call_stack_size(64);   // stack destinations live in [sp, sp+64)
+  if (cs.fv) { frame.set_local_stack_size(32); frame.set_local_stack_alignment(32); if (cs.fv == 2) frame.set_preserved_fp(); }
   if (args.update_func_frame(frame) != Error::kOk) FAIL("update-frame", "FuncArgsAssignment::update_func_frame failed");
   if (frame.finalize() != Error::kOk) FAIL("finalize", "FuncFrame::finalize failed");
   CodeHolder code; code.init(env);
@@ -145,6 +147,9 @@ static int run_case(const Case& cs) {
   if (!msim::run(m, b->first_node(), b->first_node(), last, &resume)) FAIL("hang", "argument assignment did not terminate");
   if (!m.unsupported.empty()) { c.n("undecided")++; c.note("undecided: " + m.unsupported); return 3; }
   if (!m.fault.empty()) FAIL("fault", "%s", m.fault.c_str());
+  // a destination that is the register holding the stack-argument base (dynamic alignment without frame pointer) is reached
+  // through a swap with that base, i.e. it is a register cycle although the destination is foreign to the signature
+  auto sa_swap = [&](size_t i) { return cs.fv == 1 && dsts[i].is_reg && !dsts[i].vec && frame.has_dynamic_alignment() && dsts[i].id == frame.sa_reg_id(); };
   for (size_t i = 0; i < n; i++) {
     unsigned tb = type_bytes(cs.types[i], cv.arch);
     uint64_t want = token(first + i) & msim::mask_n(tb), got;
@@ -156,7 +161,7 @@ static int run_case(const Case& cs) {
     if (dsts[i].is_reg) { if (dsts[i].vec) { got = 0; memcpy(&got, m.vec[dsts[i].id & 31], 8); } else got = m.gp[dsts[i].id == 63 ? 31 : dsts[i].id]; }
     else got = m.rd(m.sp() + uint64_t(dsts[i].off), 8);
     if ((got & msim::mask_n(tb)) != want)
-      FAIL(widen_bytes(cs.types[i]) ? (!dsts[i].is_reg ? "wrong-value:widen:stack" : cs.dst[i] == 0 ? "wrong-value:widen:reg:self" : cs.dst[i] <= (int)n ? "wrong-value:widen:reg:cycle" : "wrong-value:widen:reg:move") : "wrong-value", "argument %zu (%s) destination %s%u holds %llx, expected low %u bytes %llx", i, kTypeNames[cs.types[i]], dsts[i].is_reg ? (dsts[i].vec ? "vec" : "gp") : "stack+", dsts[i].is_reg ? dsts[i].id : unsigned(dsts[i].off), (unsigned long long)got, tb, (unsigned long long)want);
+      FAIL(widen_bytes(cs.types[i]) ? (!dsts[i].is_reg ? "wrong-value:widen:stack" : cs.dst[i] == 0 ? "wrong-value:widen:reg:self" : (cs.dst[i] <= (int)n || sa_swap(i)) ? "wrong-value:widen:reg:cycle" : "wrong-value:widen:reg:move") : "wrong-value", "argument %zu (%s) destination %s%u holds %llx, expected low %u bytes %llx", i, kTypeNames[cs.types[i]], dsts[i].is_reg ? (dsts[i].vec ? "vec" : "gp") : "stack+", dsts[i].is_reg ? dsts[i].id : unsigned(dsts[i].off), (unsigned long long)got, tb, (unsigned long long)want);
   }
   c.outcomes.insert(std::string(cv.name) + ":" + std::to_string(m.steps > 12 ? 12 : m.steps));
   return 1;
@@ -173,7 +178,8 @@ int main(int argc, char** argv) {
   if (c.replaying()) {
     for (auto& line : vh::split(c.replay_text, '\n')) if (line.rfind("conv=", 0) == 0) {
       Case cs; char ts[128] = {0}, ds[128] = {0};
-      sscanf(line.c_str(), "conv=%d pad=%d types=%127s dst=%127s", &cs.conv, &cs.extra_stack_args, ts, ds);
+      if (line.find(" fv=") != std::string::npos) sscanf(line.c_str(), "conv=%d pad=%d fv=%d types=%127s dst=%127s", &cs.conv, &cs.extra_stack_args, &cs.fv, ts, ds);
+      else sscanf(line.c_str(), "conv=%d pad=%d types=%127s dst=%127s", &cs.conv, &cs.extra_stack_args, ts, ds);
       for (auto& x : vh::split(ts, ',')) if (!x.empty()) cs.types.push_back(atoi(x.c_str()));
       for (auto& x : vh::split(ds, ',')) if (!x.empty()) cs.dst.push_back(atoi(x.c_str()));
       if (run_case(cs) == 0) report(cs);
@@ -183,7 +189,9 @@ int main(int argc, char** argv) {
   int maxn = c.thorough() ? 4 : 3;
   long long idx = 0;
   std::vector<Conv> cvs = convs();
-  for (size_t ci = 0; ci < cvs.size(); ci++) for (int pad : {0, cvs[ci].arch == AX86 ? 2 : cvs[ci].arch == AX64 ? 5 : 7}) for (int n = 1; n <= maxn; n++) {
+  for (size_t ci = 0; ci < cvs.size(); ci++) for (int pad : {0, cvs[ci].arch == AX86 ? 2 : cvs[ci].arch == AX64 ? 5 : 7})
+      for (int fv = 0; fv < (cvs[ci].arch == AA64 ? 1 : 3); fv++) for (int n = 1; n <= maxn; n++) {
+    if (fv && n > 3) continue;   // frame variants: up to three shuffled arguments
     int ntypes = (n >= 4) ? 4 : (n == 3 ? 7 : kNumTypes);
     std::vector<int> types(n, 0), dst(n, 0);
     int nd = n + 4;
@@ -192,7 +200,7 @@ int main(int argc, char** argv) {
       if (i == n) {
         if (!c.mine(idx++)) return;
         if (c.tick(256)) return;
-        Case cs{(int)ci, types, dst, pad};
+        Case cs{(int)ci, types, dst, pad}; cs.fv = fv;
         int r = run_case(cs);
         if (r == 0) report(cs); else if (r == 1) c.sample(std::string(cvs[ci].name) + " " + cs.str(), 6); else if (r == 2) c.n("skipped_invalid")++;
         return;
@@ -204,9 +212,10 @@ int main(int argc, char** argv) {
   }
   c.n("distinct_nontrivial") = c.n("evaluations") - c.n("undecided");
   c.n("states") = c.n("evaluations"); c.n("transitions") = c.n("evaluations"); c.n("traces") = c.n("evaluations");
-  c.strs["bound"] = "n<=" + std::to_string(maxn) + " shuffled arguments (optionally preceded by register-filling pointer arguments so that they arrive on the stack), full product of types x destinations";
+  c.strs["bound"] = "n<=" + std::to_string(maxn) + " shuffled arguments (optionally preceded by register-filling pointer arguments so that they arrive on the stack), full product of types x destinations; x86 conventions x frame variant {plain, dynamic alignment 32 without / with a preserved frame pointer} for n<=3";
   c.strs["rule"] = "types {i32, iptr, u8, i16, f64, f32} + widening destinations {u32>u64, i16>i64, i32>i64, u8>u32}; destination of each argument in {own incoming register, incoming register of every other argument (all permutation cycles), "
                    "two registers foreign to the signature, a stack slot}; emit_prolog + emit_args_assignment interpreted by msim; every destination must hold the low type-size bytes of its argument token";
+  c.assumptions.push_back("AArch64 frames with dynamic alignment are not varied here (not implemented by asmjit, see the C07 known finding)");
   c.assumptions.push_back("only the low type-size bytes of a destination are compared (extension beyond the type is not required by the ABIs modelled); msim semantics; scratch-register exhaustion is reached only through the assignments themselves");
   return vh::finish();
 }
